@@ -97,3 +97,24 @@ def ascii_blanks_only(t):
                 | (o == 0x202F) | (o == 0x205F) | (o == 0x3000) | (o == 9) | ((0x0B <= o) & (o <= 0x0D)) | ((0x1C <= o) & (o <= 0x1F))):
             return False
     return True
+
+
+def has_unicode_blank_line(t):
+    """a non-empty line made only of whitespace characters, at least one of them not a space or tab (U+00A0, U+0085, U+2028 ...)"""
+    for line in t.split('\n'):
+        if len(line) == 0:
+            continue
+        allws = True
+        exotic = False
+        for ch in line:
+            o = ord(ch)
+            ws = ((o == 32) | (o == 9) | ((0x0B <= o) & (o <= 0x0D)) | ((0x1C <= o) & (o <= 0x1F)) | (o == 0x85) | (o == 0xA0) | (o == 0x1680)
+                  | ((0x2000 <= o) & (o <= 0x200A)) | (o == 0x2028) | (o == 0x2029) | (o == 0x202F) | (o == 0x205F) | (o == 0x3000))
+            if not ws:
+                allws = False
+                break
+            if not ((o == 32) | (o == 9)):
+                exotic = True
+        if allws and exotic:
+            return True
+    return False
